@@ -612,9 +612,9 @@ def gen_behaviours(chk: Check) -> list[dict]:
     return tlc.export("hdlc", "Gen_Hdlc", rundir=chk.rundir, env={"GEN_SEED": str(chk.seed)})
 
 
-def replay_behaviours(chk: Check, prefixes, kind_filter=None) -> int:
+def replay_behaviours(chk: Check, prefixes, kind_filter=None, only=None) -> int:
     """Replay every TLC-generated behaviour into the real reader; compare frames, validity, hunt/esc per call."""
-    beh = gen_behaviours(chk)
+    beh = only if only is not None else gen_behaviours(chk)
     n = 0
     for b in beh:
         if kind_filter and b["kind"] not in kind_filter:
